@@ -280,7 +280,18 @@ func genScenario(c *Chooser, o ScenOpts) *Plan {
 	}
 	rp.Compression = Pick(c, "", "gzip", "deflate")
 	rp.Headers = genHeaderSet(c, c.Intn(3))
-	rp.Trailers = genHeaderSet(c, c.Intn(3))
+	rp.Trailers = nil
+	for _, kv := range genHeaderSet(c, c.Intn(3)) {
+		dup := false
+		for _, h := range rp.Headers {
+			if h[0] == kv[0] {
+				dup = true
+			}
+		}
+		if !dup {
+			rp.Trailers = append(rp.Trailers, kv)
+		}
+	}
 	rp.TrailerStyle = Pick(c, "announce", "prefix")
 	rp.ExplicitHdr = c.Bool()
 	if o.Segment {
